@@ -13,7 +13,7 @@ use fibre_logging::{LogEvent, LogValue, VerifCustomRoller};
 use serde_json::{json, Value};
 use std::collections::{BTreeMap, HashMap, HashSet};
 use std::panic::{catch_unwind, AssertUnwindSafe};
-use std::path::{Path, PathBuf};
+use std::path::Path;
 use tracing::Level;
 use vh_core::cli::Args;
 use vh_core::result::ShardResult;
@@ -273,6 +273,10 @@ fn gen_literal(rng: &mut Rng) -> String {
       2 => s.push_str(*rng.pick(&["[", "] ", " - ", " | ", "{", "}", "{x}", "\t", "\u{e4}", "\u{1f600}", "100", "-5", "\\", "\"", "\n"])),
       _ => s.push_str(&strgen::plain(rng, 1, 5)),
     }
+  }
+  // A '{' directly after a directive letter would be read as that directive's option block.
+  if s.starts_with('{') {
+    s.insert(0, ' ');
   }
   s
 }
